@@ -182,7 +182,9 @@ func c02Report(ctx *Ctx, res *Result, tree map[string]fileState, cfg wrConfig, p
 		Replay: map[string]any{"kind": "tree", "tree": encodeTree(small), "cwd": cfg.Cwd, "args": cfg.Args, "file": pp.File, "stdout": firstLines(r.Stdout, 40)}})
 }
 
-var c02PlainOpts = [][]string{{}, {"-f"}, {"-s"}, {"-e"}, {"-g"}, {"-q"}, {"-Wall", "-Call"}, {"-f", "-s"}, {"-f", "-e"}, {"-s", "-e", "-g"}, {"-Wall", "-f", "-s", "-q"}}
+var c02PlainOpts = [][]string{{}, {"-f"}, {"-s"}, {"-e"}, {"-g"}, {"-q"}, {"-Wall", "-Call"}, {"-f", "-s"}, {"-f", "-e"}, {"-s", "-e", "-g"}, {"-Wall", "-f", "-s", "-q"},
+	// round 5: "whatever other options are used" -- the remaining argument-less options
+	{"-p"}, {"-p", "-s"}, {"-d"}, {"-I", "-Wall"}}
 
 func c02Targets(rng *Rng, g *GenTree, args []string) wrConfig { return pickTargets(rng, g, args) }
 
